@@ -85,6 +85,9 @@ func genC11Node(t *simrt.Tape, depth int, id *int) c11Node {
 		return n
 	}
 	k := t.Choose(3)
+	if depth >= 3 && t.Bool(1, 4) {
+		k = 3 + t.Choose(10) // a long top-level chain of FlatMaps
+	}
 	for i := 0; i < k; i++ {
 		f := c11Fun{ID: *id}
 		*id++
@@ -219,6 +222,32 @@ func (sc *c11Scenario) Run(s *simrt.Sim) {
 	ref := c11Ref(sc.Tree, 0, nil)
 	if !c11LogIsRepeats(evalLog, ref, sc.Evals, func(c11Ev) bool { return true }) {
 		add("once-per-evaluation", "Eval-effect-log", fmt.Sprintf("%d Evals ran %v; one evaluation is %v", sc.Evals, c11Names(evalLog), ref))
+	}
+	// two compositions derived from the SAME parent are independent programs
+	{
+		fA := func(v int) *fpgo.MonadIODef[int] { return fpgo.MonadIOJustGenerics(v + 100000) }
+		fB := func(v int) *fpgo.MonadIODef[int] { return fpgo.MonadIOJustGenerics(v + 200000) }
+		a := m.FlatMap(fA)
+		b := m.FlatMap(fB)
+		for i, c := range []struct {
+			io  *fpgo.MonadIODef[int]
+			off int
+			n   string
+		}{{a, 100000, "a"}, {b, 200000, "b"}, {a, 100000, "a"}, {m, 0, "parent"}} {
+			before := len(sc.log)
+			op := h.Do("main", "Eval-sibling-"+c.n, i, func() (interface{}, error) { return c.io.Eval(), nil })
+			w := want + c.off
+			for _, e := range sc.log[before:] {
+				w += e.salt
+			}
+			if op.Panic == "" && op.Val != w {
+				add("value", "sibling-composition-wrong-value", fmt.Sprintf("p.FlatMap(fA) and p.FlatMap(fB) built from one parent: evaluating %q returned %v, want %d", c.n, op.Val, w))
+			}
+			if !c11LogIsRepeats(sc.log[before:], ref, 1, func(c11Ev) bool { return true }) {
+				add("once-per-evaluation", "sibling-composition-effect-log", fmt.Sprintf("evaluating sibling %q ran %v; one evaluation of the parent is %v", c.n, c11Names(sc.log[before:]), ref))
+			}
+		}
+		sc.log = nil
 	}
 	// laws (behavioural equalities on generated instances)
 	sc.laws(s, add)
